@@ -72,10 +72,10 @@ func (g *gen) in(lo, hi int) int {
 }
 func (g *gen) id() uint64 { g.nextID++; return g.nextID }
 
-func ip(v int) *int          { return &v }
-func sp(v string) *string    { return &v }
-func bp(v bool) *bool        { return &v }
-func i64p(v int64) *int64    { return &v }
+func ip(v int) *int           { return &v }
+func sp(v string) *string     { return &v }
+func bp(v bool) *bool         { return &v }
+func i64p(v int64) *int64     { return &v }
 func f64p(v float64) *float64 { return &v }
 
 var words = []string{"alpha", "beta", "gamma", "delta", "eps"}
@@ -457,7 +457,7 @@ func genCore(prop string, seed uint64, faulty bool) *Scenario {
 	if k.mutator {
 		c := ClientSpec{Name: "mutator", Kind: "mutator"}
 		for o, n := 0, g.in(1, 5); o < n; o++ {
-			c.Ops = append(c.Ops, Op{K: "mutate", Str: []string{"view", "vv", "events", "callback"}[g.r.IntN(4)]})
+			c.Ops = append(c.Ops, Op{K: "mutate", Str: []string{"view", "vv", "events", "callback", "defaults"}[g.r.IntN(5)]})
 			if g.pct(40) {
 				c.Ops = append(c.Ops, Op{K: "sleep", D: int64(g.in(1, 300)) * 1e6})
 			}
